@@ -156,7 +156,7 @@ Selected(list) ==
   ELSE {list[i][2] : i \in {j \in 1..Len(list) : list[j][1] = "+"}} \cap Countries     \* a code that is not in the table selects nothing
 
 \* fed = sum pop * min(1, ratio), counted in units of 1 / Den
-Den == 200     \* fed is counted in units of 1/200 of a person: min(1, ratio) is exact for every ratio of the grid
+Den == 400     \* fed is counted in units of 1/400 of a person: min(1, ratio) is exact for every ratio of the grid
 RECURSIVE FedTwice(_, _)
 FedTwice(S, ratio) == IF S = {} THEN 0
                       ELSE LET c == CHOOSE x \in S : TRUE
